@@ -226,6 +226,24 @@ def gen_int_grid_case(rng, max_cells):
             "lim_form": rng.choice(["tuples", "lists", "ndarray"]), "dl_form": dl_form}
 
 
+def gen_million_cell_case(rng, alpha=None):
+    """a fine 3-D grid with more than a million cells (about 105 per axis)"""
+    while True:
+        desc = M.gen_model_desc(rng, 3)
+        if all(d["family"] != "vonmises" for d in desc["dims"]):
+            break
+    model = M.build_model(desc)
+    alpha = alpha or float(rng.choice([1e-2, 1e-3, 1e-5]))
+    ups = M.typical_upper(model, desc, min(1 - 1e-10, 1 - alpha / 30.0))
+    while True:
+        ns = [rng.randrange(96, 116) for _ in range(3)]
+        if (ns[0] + 1) * (ns[1] + 1) * (ns[2] + 1) > 1.03e6:
+            break
+    lims = [[0.0, float(u)] for u in ups]
+    return {"kind": "grid", "desc": desc, "alpha": alpha, "limits": lims, "deltas": [float(u) / k for u, k in zip(ups, ns)],
+            "lim_form": "tuples", "dl_form": "asis"}
+
+
 def gen_default_case(rng, what):
     """default limits and / or default deltas (2-D; alpha large enough for the Monte-Carlo default limits)"""
     desc = M.gen_model_desc(rng, 3 if what == "limits3" else 2)
@@ -821,13 +839,19 @@ def run(ctx):
     n_big = ctx.n(5, 40)
     big_cells = ctx.n(60000, 160000)
     nbig = 0
-    for i in range(n_big):
+    max_oracle_cells = 0
+    million = [gen_million_cell_case(rng, a) for a in ([1e-3] if ctx.quick() else [1e-2, 1e-3, 1e-5])]
+    for i in range(n_big + len(million)):
         if found >= 8:
             break
-        c = gen_grid_case(rng, big_cells, n_dim=(2 if i % 3 else 3), big=True)
+        c = million[i - n_big] if i >= n_big else gen_grid_case(rng, big_cells, n_dim=(2 if i % 3 else 3), big=True)
         out = run_grid(c)
         nbig += 1
         key = "biggrid/%dd/%s%s" % (len(c["desc"]["dims"]), out.get("err", "ok"), "+warn" if out.get("warned") else "")
+        if "f" in out:
+            max_oracle_cells = max(max_oracle_cells, int(out["f"].size))
+            if out["f"].size > 1e6:
+                key += "/million-cells"
         dist[key] = dist.get(key, 0) + 1
         ctx.count(("grid", repr(c["desc"]), c["alpha"], repr(c["limits"]), repr(c["deltas"])), "contour" in out and not out["warned"])
         o = oracle_grid(c, out, gnotes)
@@ -844,7 +868,7 @@ def run(ctx):
     ctx.notes["unjudgeable"] = unjudge
     ctx.notes.update(gnotes)
     ctx.notes["grid_sizes"] = {"coq_cells_max": max([outs_b[i]["f"].size for i in coq_b] or [0]),
-                               "oracle_cells_max": big_cells, "large_grids": nbig}
+                               "oracle_cells_max": max_oracle_cells, "large_grids": nbig}
     for c, r in list(zip(cases_a, res_a))[:2]:
         ctx.sample({"case": {k: (v if k != "data" else v[:8]) for k, v in c.items()}, "implementation": {k: (v if k != "mask" else v[:8]) for k, v in r.items()}})
     for c, o in list(zip(cases_b, outs_b))[:2]:
